@@ -216,6 +216,17 @@ def run(prog, rep, tier):
         # printed variable: component 0 of the tuple in the Ok result
         # (`_printed` is the throw-away counter of the error-in-progress flush, whose function returns Err)
         pv = set(i for i, l in enumerate(pbody.locals) if (l.get("name") or "").lstrip("_") == "printed")
+        # by role: first component of the tuple returned in PrinterLogMessageResult::Ok
+        for bb_ in sorted(pbody.live):
+            for st in pbody.stmts(bb_):
+                if st[0] == "=" and st[1] == [0] and st[2][0] == "agg" and isinstance(st[2][1], dict) and st[2][1].get("variant") == "Ok":
+                    for o in pbody.origins(st[2][2][0]):
+                        if o[0] == "agg":
+                            t2 = pbody.stmts(o[1])[o[2]]
+                            if t2[2][1] == "tuple" and t2[2][2]:
+                                v_ = var_of(pbody, t2[2][2][0])
+                                if v_ is not None:
+                                    pv.add(v_)
         for c in pbody.live_calls():
             if not c.o.endswith("io::Write::write_all") or c.target is None:
                 continue
